@@ -123,7 +123,8 @@ struct Scenario {
     prologue: Option<Box<Scenario>>,
 }
 
-const PRE_MULTI: &[&str] = &["", "WATCH w", "UNWATCH", "WATCH k w"];
+/// entries from index 4 on are commands that are rejected (or merely read) outside a transaction: they must not touch the watches
+const PRE_MULTI: &[&str] = &["", "WATCH w", "UNWATCH", "WATCH k w", "DISCARD", "EXEC", "NOSUCHCOMMAND x", "SET w", "GET s", "PING"];
 
 impl Scenario {
     fn json(&self) -> serde_json::Value {
@@ -211,10 +212,18 @@ async fn run_txn(m: &mut World, t: &mut World, sc: &Scenario, root: &Scenario) -
             bwrite!(1);
             if sc.pre_multi > 0 {
                 let r = m.one(true, &l(PRE_MULTI[sc.pre_multi])).await.map_err(mach)?;
-                if resp::show(&r) != "+OK" {
+                if sc.pre_multi >= 4 {
+                    // DISCARD / EXEC without MULTI, an unknown command, a wrong-arity command: an error reply; GET, PING: a result
+                    let want_err = sc.pre_multi <= 7;
+                    if resp::is_err(&r) != want_err {
+                        return Err(("pre-multi-reply".into(), format!("{}: `{}` outside a transaction replied {}", sc_desc, PRE_MULTI[sc.pre_multi], resp::show(&r))));
+                    }
+                } else if resp::show(&r) != "+OK" {
                     return Err(("watch-reply".into(), format!("{}: `{}` replied {}", sc_desc, PRE_MULTI[sc.pre_multi], resp::show(&r))));
                 }
-                if sc.pre_multi == 2 {
+                if sc.pre_multi >= 4 {
+                    // nothing changes: what was watched stays watched, with its first snapshot
+                } else if sc.pre_multi == 2 {
                     at_watch = None; // UNWATCH: nothing is watched any more
                 } else if at_watch.is_none() {
                     at_watch = Some(w_value(&m.keyspace().await.map_err(mach)?));
